@@ -257,6 +257,11 @@ var c12ImportBases = []string{
 	"import (\n\thp \"helper.tsh\"\n)\nx := hp.Twice(3)\nprint(x)\n",
 	"import hp \"helper.tsh\"\nprint(hp.Name())\n",
 	"import (\n\t\"strings\"\n\thp \"helper.tsh\"\n\th2 \"helper.tsh\"\n)\nprint(strings.Repeat(hp.Name(), h2.Twice(1)))\n",
+	// files whose LAST statement is an import (nothing but the end of the file may follow the path)
+	"import hp \"helper.tsh\"\n",
+	"import \"strings\"\n",
+	"import (\n\thp \"helper.tsh\"\n)\nimport \"strings\"\n",
+	"import (\n\t\"strings\"\n\thp \"helper.tsh\"\n)\n",
 }
 
 // programs whose string literals span several lines (raw strings, and interpreted strings with a literal line break,
